@@ -334,4 +334,145 @@ def outcome (r : Except Err Val) : Option Val :=
   | .ok v => some v
   | .error _ => Option.none
 
+/-! ### Statements
+
+A tiny block language for the statement-level rewrites (FURB113/125/126/128/133/138/148): assignments,
+`x.append(e)`, `x.extend((e1, e2))`, a list comprehension, `return`, `continue`, `if/else`, `for`.
+Lists are VALUES here: `x.append(e)` rebinds `x` to the longer list, so aliasing between names is not
+modelled (the harness executes aliased arguments; the theorems do not speak about them), and list elements
+are scalars (appending a container is outside the value universe and modelled as a raise).
+A block runs in an environment and ends in a `Flow`: fell through, returned, hit `continue`, or raised. -/
+
+def setVar (σ : Env) (n : String) (v : Val) : Env := fun m => if m = n then some v else σ m
+
+inductive Stmt where
+  | pass
+  | assign (x : String) (e : PyExpr)                       -- x = e
+  | assign2 (x y : String) (e1 e2 : PyExpr)                -- x, y = e1, e2
+  | append (x : String) (e : PyExpr)                       -- x.append(e)
+  | extend2 (x : String) (e1 e2 : PyExpr)                  -- x.extend((e1, e2))
+  | listComp (x : String) (elt : PyExpr) (v : String) (it : PyExpr) (cond : Option PyExpr)   -- x = [elt for v in it if cond]
+  | ret (e : Option PyExpr)                                -- return / return e
+  | cont                                                   -- continue
+  | ifElse (c : PyExpr) (t e : List Stmt)
+  | forIn (v : String) (it : PyExpr) (body : List Stmt)    -- for v in it: body
+  | forEnum (i v : String) (it : PyExpr) (body : List Stmt) -- for i, v in enumerate(it): body
+
+inductive Flow where
+  | next (σ : Env)
+  | returned (v : Val) (σ : Env)
+  | continued (σ : Env)
+  | raised
+
+/-- the elements a `for` loop / comprehension draws from a value (strings yield their characters) -/
+def iterElems : Val → Except Err (List Scalar)
+  | .list xs => .ok xs
+  | .tuple xs => .ok xs
+  | .sc (.str s) => .ok (s.map (fun c => Scalar.str [c]))
+  | _ => .error .typeError
+
+/-- a `for` loop over already-evaluated elements: `continue` and falling through both go to the next element -/
+def iterate (step : Env → Scalar → Flow) : List Scalar → Env → Flow
+  | [], σ => .next σ
+  | a :: as, σ =>
+    match step σ a with
+    | .next σ' => iterate step as σ'
+    | .continued σ' => iterate step as σ'
+    | .returned v σ' => .returned v σ'
+    | .raised => .raised
+
+/-- the same with the running index of `enumerate` -/
+def iterateIdx (step : Env → Int → Scalar → Flow) : Int → List Scalar → Env → Flow
+  | _, [], σ => .next σ
+  | k, a :: as, σ =>
+    match step σ k a with
+    | .next σ' => iterateIdx step (k + 1) as σ'
+    | .continued σ' => iterateIdx step (k + 1) as σ'
+    | .returned v σ' => .returned v σ'
+    | .raised => .raised
+
+/-- `[elt for v in … if cond]`: `v` is bound per element in the comprehension's own scope (the enclosing
+    environment `σ` is not changed) -/
+def compElems (σ : Env) (elt : PyExpr) (v : String) (cond : Option PyExpr) : List Scalar → Except Err (List Scalar)
+  | [] => .ok []
+  | a :: as => do
+    let σ' := setVar σ v (.sc a)
+    let keep ← match cond with
+      | some c => do .ok (truthy (← eval σ' c))
+      | Option.none => .ok true
+    if keep then do
+      let e ← scalarOf (← eval σ' elt)
+      let rest ← compElems σ elt v cond as
+      .ok (e :: rest)
+    else compElems σ elt v cond as
+
+mutual
+def exec (σ : Env) : Stmt → Flow
+  | .pass => .next σ
+  | .assign x e =>
+    match eval σ e with
+    | .ok v => .next (setVar σ x v)
+    | .error _ => .raised
+  | .assign2 x y e1 e2 =>
+    match eval σ e1, eval σ e2 with
+    | .ok a, .ok b => .next (setVar (setVar σ x a) y b)
+    | _, _ => .raised
+  | .append x e =>
+    match σ x, eval σ e with
+    | some (.list xs), .ok (.sc s) => .next (setVar σ x (.list (xs ++ [s])))
+    | _, _ => .raised
+  | .extend2 x e1 e2 =>
+    match σ x, eval σ e1, eval σ e2 with
+    | some (.list xs), .ok (.sc a), .ok (.sc b) => .next (setVar σ x (.list (xs ++ [a, b])))
+    | _, _, _ => .raised
+  | .listComp x elt v it cond =>
+    match eval σ it with
+    | .ok itv =>
+      match iterElems itv with
+      | .ok xs =>
+        match compElems σ elt v cond xs with
+        | .ok ys => .next (setVar σ x (.list ys))
+        | .error _ => .raised
+      | .error _ => .raised
+    | .error _ => .raised
+  | .ret Option.none => .returned vNone σ
+  | .ret (some e) =>
+    match eval σ e with
+    | .ok v => .returned v σ
+    | .error _ => .raised
+  | .cont => .continued σ
+  | .ifElse c t e =>
+    match eval σ c with
+    | .ok v => if truthy v then execBlock σ t else execBlock σ e
+    | .error _ => .raised
+  | .forIn v it body =>
+    match eval σ it with
+    | .ok itv =>
+      match iterElems itv with
+      | .ok xs => iterate (fun σ' a => execBlock (setVar σ' v (.sc a)) body) xs σ
+      | .error _ => .raised
+    | .error _ => .raised
+  | .forEnum i v it body =>
+    match eval σ it with
+    | .ok itv =>
+      match iterElems itv with
+      | .ok xs => iterateIdx (fun σ' k a => execBlock (setVar (setVar σ' i (vInt k)) v (.sc a)) body) 0 xs σ
+      | .error _ => .raised
+    | .error _ => .raised
+def execBlock (σ : Env) : List Stmt → Flow
+  | [] => .next σ
+  | s :: rest =>
+    match exec σ s with
+    | .next σ' => execBlock σ' rest
+    | f => f
+end
+
+/-- what a caller of a function whose body is the block observes: the returned value (None when the body falls
+    off its end) and the final bindings; `none` = an exception (a `continue` outside a loop is not a program) -/
+def callResult : Flow → Option (Val × Env)
+  | .next σ => some (vNone, σ)
+  | .returned v σ => some (v, σ)
+  | .continued _ => Option.none
+  | .raised => Option.none
+
 end RefurbVerif.Py
